@@ -119,8 +119,43 @@ static void trace_it (pixman_implementation_t *imp, const pixman_iter_info_t *in
     else if (info->initializer) vf_label ("iter_addr", "%p", (void *)info->initializer);
 }
 
+/* pixman_fill / pixman_blt through the chain: the byte result (and the return value) must not depend on which implementation serves the call */
+static void raw_case (long idx, vf_rng *r)
+{
+    static const int bpps[] = { 8, 16, 32, 16, 32, 1, 4, 24 }; int bpp = VF_PICK (r, bpps);
+    int w = (int)vf_range (r, 1, 90), h = (int)vf_range (r, 1, 5), stride = (w * bpp + 31) / 32 + (int)vf_range (r, 0, 2);
+    uint32_t *a = malloc ((size_t)stride * 4 * h), *b = malloc ((size_t)stride * 4 * h); if (!a || !b) { free (a); free (b); return; }
+    for (int i = 0; i < stride * h; i++) { a[i] = vf_u32 (r); b[i] = vf_u32 (r); }
+    int x = (int)vf_range (r, 0, w - 1), y = (int)vf_range (r, 0, h - 1), ww = (int)vf_range (r, 1, w - x), hh = (int)vf_range (r, 1, h - y);
+    uint32_t filler = vf_u32 (r);          /* bits above the pixel size are junk on purpose: the caller's word, not a clean pixel */
+    if (vf_chance (r, 1, 3)) filler &= bpp >= 32 ? 0xffffffffu : (1u << bpp) - 1;
+    int do_blt = vf_chance (r, 1, 3); pixman_bool_t ok;
+    vf_case_desc ("%s bpp=%d %dx%d stride=%d rect=(%d,%d %dx%d) filler=%08x chain='%s'", do_blt ? "pixman_blt" : "pixman_fill", bpp, w, h, stride, x, y, ww, hh, filler, vf_chain_env ());
+    vf_inflight ("%s bpp=%d", do_blt ? "pixman_blt" : "pixman_fill", bpp);
+    /* what a TRUE result has to be (byte model); a chain without a routine for the case returns FALSE and must leave the buffer alone: the
+     * digest is then taken from the model, so that all chains agree exactly when every TRUE result equals the model */
+    uint32_t *m = malloc ((size_t)stride * 4 * h), *before = malloc ((size_t)stride * 4 * h); if (!m || !before) { free (a); free (b); free (m); free (before); return; }
+    memcpy (m, a, (size_t)stride * 4 * h); memcpy (before, a, (size_t)stride * 4 * h);
+    int sx = 0, sy = 0;
+    if (do_blt) { sx = (int)vf_range (r, 0, w - ww); sy = (int)vf_range (r, 0, h - hh);
+        for (int j = 0; j < hh; j++) for (int i = 0; i < ww; i++) vf_put_px ((uint8_t *)(m + (size_t)(y + j) * stride), bpp, x + i, vf_get_px ((const uint8_t *)(b + (size_t)(sy + j) * stride), bpp, sx + i));
+        ok = pixman_blt (b, a, stride, stride, bpp, bpp, sx, sy, x, y, ww, hh); }
+    else { for (int j = 0; j < hh; j++) for (int i = 0; i < ww; i++) vf_put_px ((uint8_t *)(m + (size_t)(y + j) * stride), bpp, x + i, bpp >= 32 ? filler : filler & ((1u << bpp) - 1));
+        ok = pixman_fill (a, stride, bpp, x, y, ww, hh, filler); }
+    if (!ok && memcmp (a, before, (size_t)stride * 4 * h)) vf_violation ("C02:raw-call-false-but-buffer-changed", "%s returned FALSE but changed the buffer", do_blt ? "pixman_blt" : "pixman_fill");
+    uint64_t d = vf_hash (ok ? a : m, (size_t)stride * 4 * h, 0x51);
+    vf_count (ok ? "raw_calls_served" : "raw_calls_refused", 1);
+    free (m); free (before);
+    char label[64]; snprintf (label, sizeof label, "%s/bpp%d", do_blt ? "pixman_blt" : "pixman_fill", bpp);
+    extern void vf_digest_line (long idx, uint64_t digest, const char *label);
+    vf_digest_line (idx, d, label);
+    vf_count ("evaluations", 1); vf_count ("raw_fill_blt_cases", 1); vf_cell ("cells", vf_mix (vf_mix (77, bpp), do_blt * 2 + (ok != 0)));
+    free (a); free (b);
+}
+
 static void chain_case (long idx, vf_rng *r)
 {
+    if (!hostile && idx % 25 == 24) { raw_case (idx, r); return; }
     rq_request q; memset (&q, 0, sizeof q);
     int directed = n_recipes && (idx % 3) != 2;
     const recipe_t *rc = NULL;
